@@ -245,7 +245,7 @@ fn hostile_values(rng: &mut Rng, t: &Target, b: &Builder) -> Vec<u64> {
 }
 
 /// hostile linker chain variants poked into one page
-fn hostile_chain(rng: &mut Rng, base: u64, variant: u64) -> (Vec<(u64, Vec<u8>)>, u64, u64, String) {
+pub fn hostile_chain(rng: &mut Rng, base: u64, variant: u64) -> (Vec<(u64, Vec<u8>)>, u64, u64, String) {
     let phdr_addr = base + 0x40;
     let ph = |t: u32, off: u64, vaddr: u64, size: u64| -> Vec<u8> {
         let mut b = Vec::new();
